@@ -2274,7 +2274,11 @@ class Head(Expr):
             ]
             return type(self.frame)(*operands)
         if isinstance(self.frame, Head):
-            return Head(self.frame.frame, min(self.n, self.frame.n), self.npartitions)
+            return Head(
+                self.frame.frame,
+                min(self.n, self.frame.n),
+                self.frame.operand("npartitions"),
+            )
 
     def _simplify_up(self, parent, dependents):
         from dask_expr import Repartition
